@@ -129,3 +129,21 @@ func Simple(k *Key, tag string, serial int64) *x509.Certificate {
 func CertPEM(c *x509.Certificate) []byte {
 	return pem.EncodeToMemory(&pem.Block{Type: "CERTIFICATE", Bytes: c.Raw})
 }
+
+// MintRawIssuer mints a certificate whose issuer bytes are exactly rawIssuer
+// (used to build a "same issuer + serial, different key" twin of any certificate).
+func MintRawIssuer(subjectKey *Key, caKey *Key, rawIssuer []byte, serial *big.Int, subj string) (*x509.Certificate, error) {
+	parent := &x509.Certificate{
+		SerialNumber: big.NewInt(1), RawSubject: rawIssuer, NotBefore: notBefore, NotAfter: notAfter,
+		IsCA: true, BasicConstraintsValid: true, KeyUsage: x509.KeyUsageCertSign,
+	}
+	tmpl := &x509.Certificate{
+		SerialNumber: serial, Subject: pkix.Name{CommonName: subj}, NotBefore: notBefore, NotAfter: notAfter,
+		KeyUsage: x509.KeyUsageDigitalSignature,
+	}
+	der, err := x509.CreateCertificate(rand.Reader, tmpl, parent, &subjectKey.Priv.PublicKey, caKey.Priv)
+	if err != nil {
+		return nil, fmt.Errorf("mint: %w", err)
+	}
+	return x509.ParseCertificate(der)
+}
